@@ -140,7 +140,7 @@ def expected(src):
     return cache[key]
 
 
-UNWINDSET = ['mapinit.0:70', 'strlen.0:100', 'strcmp.0:100', 'memcmp.0:100', '__CPROVER_file_local_map_c_hash.0:100', '__CPROVER_file_local_map_c_keyindex.0:66', 'mapput.0:66', 'mapput.1:66',
+UNWINDSET = ['strlen.0:100', 'strcmp.0:100', 'memcmp.0:100', '__CPROVER_file_local_map_c_hash.0:100', 
              'dupstr.0:100', 'eqlit.0:82', 'arrayaddbuf.0:98', 'feed_raw.0:2', 'memcpy.0:100', 'strchr.0:100']
 
 
@@ -153,11 +153,13 @@ def _inst(name, src, expect_error, fam, exp_tokens, safety=False):
              'expected.inc': '#define NEXP %d\nstatic const struct { int kind; const char *lit; } EXP[] = {\n%s};\n' % (len(exp_tokens), exp)}
     n = len(raw) + len(exp_tokens)
     defs = {'EXPECT_ERROR': 1 if expect_error else 0}
+    if parselib.mapcap() != 64:
+        defs['MAPCAP'] = parselib.mapcap()
     if safety:
         defs['SAFE_FREE'] = None
     return Inst(name, 'h_ppx.c', defs, safety=safety, units=['token', 'map', 'util'],
                 overrides=['error', 'fatal', 'xmalloc', 'xreallocarray', 'arrayadd', 'arrayaddbuf', 'arraylast'], native_units=['scan', 'expr', 'type', 'eval', 'decl', 'init', 'scope', 'targ', 'attr', 'stmt', 'utf', 'qbe', 'tree'],
-                unwind=max(40, 2 * n + 20), unwindset=UNWINDSET, family=fam, timeout=600, mem_gb=12, files=files,
+                unwind=max(40, 2 * n + 20), unwindset=UNWINDSET + parselib.map_unwindset(), family=fam, timeout=600, mem_gb=12, files=files,
                 bound={'macro set': src, 'raw tokens': len(raw), 'expected tokens (gcc -E)': len(exp_tokens)})
 
 
